@@ -69,9 +69,14 @@ def finding_key(p, f):
             (rec.get('kind') in ('li', 'data', 'pack') and all(isinstance(v, int) for v in rec.get('values', [rec.get('value')])))
         if literal:
             return 'literal:%s' % ((f.get('line') or 'program').split(' ')[0])
-        if any(m in f.get('emsg', '') for m in RVC_MSG):
-            return 'label-immediate:rvc-form-chosen-on-stale-label-value'
-        return 'label-immediate:distance-changed-by-align-padding'
+        mn = (f.get('line') or 'program').split(' ')[0].lower()
+        em = f.get('emsg', '')
+        how = 'odd' if ('multiple of 2' in em or 'muliple of 2' in em) else ('scale' if 'multiple of' in em else
+                                                                            ('range' if 'must be between' in em else
+                                                                             ('zero' if 'must not be' in em else 'other')))
+        if any(m in em for m in RVC_MSG):
+            return 'label-immediate:rvc-form-chosen-on-stale-label-value:%s:%s' % (mn, how)
+        return 'label-immediate:distance-changed-by-align-padding:%s:%s' % (mn, how)
     line = (f.get('line') or '').split(' ')[0]
     tag = p.tag.split(':')
     return '%s:%s' % (line or 'program', ':'.join(tag[:2]))
